@@ -41,11 +41,17 @@ pub struct NsObs {
 macro_rules! queries {
     ($r:expr, $pool:expr) => {{
         let mut q = Vec::new();
+        // resolve(name, attribute) is the general form of resolve_element / resolve_attribute: the answers (namespace and
+        // local name) must be the same; a disagreement is made visible as an answer the specification never gives
         for n in $pool.iter() {
-            q.push(rr(&$r.resolve_element(QName(n.as_bytes())).0));
+            let (a, la) = $r.resolve_element(QName(n.as_bytes()));
+            let (b, lb) = $r.resolve(QName(n.as_bytes()), false);
+            q.push(if rr(&a) == rr(&b) && la == lb { rr(&a) } else { json!("resolve(_, false) differs from resolve_element") });
         }
         for n in $pool.iter() {
-            q.push(rr(&$r.resolve_attribute(QName(n.as_bytes())).0));
+            let (a, la) = $r.resolve_attribute(QName(n.as_bytes()));
+            let (b, lb) = $r.resolve(QName(n.as_bytes()), true);
+            q.push(if rr(&a) == rr(&b) && la == lb { rr(&a) } else { json!("resolve(_, true) differs from resolve_attribute") });
         }
         let pf: Vec<Value> = $r
             .prefixes()
